@@ -228,7 +228,7 @@ def one_history(ctx, kind, factory, route, rng):
 def run_shard(ctx):
     rng = ctx.rng('c11')
     K = kinds()
-    count = ctx.pick(60, 1500)
+    count = ctx.pick(200, 6000)
     for i in range(count):
         kind = rng.choice(list(K))
         route = rng.choice(['copy', 'copy.copy', 'copy.deepcopy', 'sibling'])
